@@ -1,6 +1,8 @@
 (* C09 — any file content can be scanned without crashing; work is at most quadratic.
    tree-sitter's own parser (C code) is outside the model: it enters as the tree. *)
 From CPF Require Import Base.Bytes Base.BytesFacts Scan.Cst Scan.Build Scan.BuildFacts.
+From CPF Require Import Base.Skel Scan.PoolSkel.
+From CPF.gen Require Import Tables.
 
 (* Crash part: the builder's only abort sites are the unchecked dereferences that shape_okb lists
    (assert/yield child 1; binary left/right/operator; class name; first child of each element of an
@@ -27,3 +29,10 @@ Theorem C09_quadratic : forall path src t g,
   work t g <= 8 * (cst_size t + length src) * (cst_size t + length src).
 Proof. exact build_file_work. Qed.
 Print Assumptions C09_quadratic.
+
+(* what surrounds the builder in a worker (the parser's configuration and the two error exits) is the loop the
+   model describes: nothing but readFile / ParseCtx can skip a file, nothing else is called on the parser
+   between files (regenerated from graph.Initialize on every run, Scan/PoolSkel.v) *)
+Theorem C09_worker_loop : pool_program = pool_program_modelled.
+Proof. exact pool_program_matches. Qed.
+Print Assumptions C09_worker_loop.
